@@ -212,8 +212,9 @@ theorem C13_additional_policy_determined (cfg : Cfg) (a : Ty) (u u' : Spec.Unkno
     (h : Spec.additionalMeans cfg a u = Spec.additionalMeans cfg a u') : u = u' := by
   cases u <;> cases u' <;> simp [Spec.additionalMeans, generate] at h ⊢
 
-/-- the parser's treatment of unknown keys is the documented one -/
-theorem C13_unknown_keys_eq_spec (o : Opts) : parserUnknown o = Spec.unknownKeys o := by
+/-- (restates the model: `parserUnknown` and `Spec.unknownKeys` are the same case split on `Options.addition`; the
+parser's `parse_addition` loop itself is tied by the unknown-key probes of the correspondence run, not by a theorem) -/
+theorem unknown_keys_restates_model (o : Opts) : parserUnknown o = Spec.unknownKeys o := by
   cases h : o.addition <;> simp [parserUnknown, Spec.unknownKeys, h]
 
 /-! ## aliases: every accepted name is listed, and only those -/
@@ -594,7 +595,7 @@ theorem val_gen : (t : Ty) → (r : PV) → wfTy t = true → conforms R t r = t
     cases r <;> simp only [Bool.false_eq_true] at hc
     rename_i kvs
     simp only [Bool.and_eq_true] at hc h1
-    obtain ⟨⟨⟨⟨hpres, hnoout⟩, hdeps⟩, hflds⟩, hadd⟩ := hc
+    obtain ⟨⟨⟨hpres, hnoout⟩, hflds⟩, hadd⟩ := hc
     have he : encode (.inst kvs) = .obj (encodeInst kvs) := by rw [encode.eq_def]
     have hsi : safeInst kvs = true := by rw [safeDecimals.eq_def] at hs; exact hs
     have hgen := gen.eq_def ⟨true, gm⟩ (.data c fields addTy)
@@ -641,36 +642,12 @@ theorem val_gen : (t : Ty) → (r : PV) → wfTy t = true → conforms R t r = t
         have := List.all_eq_true.mp hpres g hg
         rw [hO] at hp
         simpa [hp] using this
-    · -- dependentRequired
-      unfold depSeg
-      split
-      · exact validateKws_nil ..
-      · rw [validateKws_cons, validateKws_nil, Bool.and_true]
-        have hk : validateEntry C all "dependentRequired" (.obj (dependentRequired ⟨true, gm⟩ (effOpts ⟨true, gm⟩ c) (fields.map Fld.meta)))
-            (.obj (encodeInst kvs)) =
-            (dependentRequired ⟨true, gm⟩ (effOpts ⟨true, gm⟩ c) (fields.map Fld.meta)).all (depOk (encodeInst kvs)) := by
-          simp [validateEntry, checkSimple, kDependentRequired]
-        rw [hk, List.all_eq_true]
-        intro d hd
-        unfold dependentRequired at hd
-        rw [List.mem_map] at hd
-        obtain ⟨f, hf, rfl⟩ := hd
-        rw [List.mem_filter, List.mem_map] at hf
-        obtain ⟨⟨g, hg, rfl⟩, _⟩ := hf
-        unfold depOk
-        simp only [strArr]
-        by_cases hk' : hasKey g.meta.name (encodeInst kvs) = true
-        · have hd' := List.all_eq_true.mp hdeps g hg
-          rw [hasKey_encodeInst] at hk'
-          simp only [Bool.or_eq_true, Option.isNone_iff_eq_none] at hd'
-          rcases hd' with hd' | hd'
-          · rw [hd'] at hk'; cases hk'
-          · simp only [hasKey_encodeInst, hk', Bool.not_true, Bool.false_or]
-            apply requiredOk_strs
-            intro n hn
-            rw [hasKey_encodeInst]
-            exact List.all_eq_true.mp hd' n (mem_sortStrings hn)
-        · simp [hk']
+    · -- dependentRequired: not part of an output document
+      have : depSeg ⟨true, gm⟩ (effOpts ⟨true, gm⟩ c) (fields.map Fld.meta) = [] := by
+        unfold depSeg dependentRequired
+        simp
+      rw [this]
+      exact validateKws_nil ..
     · -- additionalProperties
       have hdecl : ∀ kv ∈ kvs, (fieldNames fields).contains kv.1 = true → isDeclared C all kv.1 = true := by
         intro kv hkv hfn
@@ -846,7 +823,7 @@ theorem C13_outputs_validate_partial (R : Rx) (L : RxLaws R) (C : Ctx) (hC : C.s
 
 /-- a trivial regex oracle (everything matches): satisfies the laws, so the hypotheses are not vacuous -/
 def Rx.top : Rx := ⟨fun _ _ => true, fun _ _ => true⟩
-theorem Rx.top_laws : RxLaws Rx.top := ⟨fun _ _ _ => rfl, fun _ => rfl, fun _ => rfl⟩
+theorem Rx.top_laws : RxLaws Rx.top := ⟨fun _ _ _ => rfl⟩
 def Ctx.top : Ctx := ⟨Rx.top.search, fun _ _ => false⟩
 
 /-- known finding `decimal-unsafe-string`: `Decimal('1E+20')` conforms to `Decimal`, is published as the string
@@ -947,10 +924,188 @@ theorem C13_defs_ref_resolves (reg0 : Reg) (hok : RegOk reg0) (cls : String) (ui
     rw [h2, nameOf_fill]
     exact runOps_stable _ ops u m (setDef_stable reg0 cls uid none u m hm)
 
+/-! ### the same for the generator model `genD` itself -/
+
+/-- `reg'` extends `reg`: still well-formed, and every registered name is kept -/
+def Extends (reg reg' : Reg) : Prop :=
+  (RegOk reg → RegOk reg') ∧ ∀ u n, reg.nameOf u = some n → reg'.nameOf u = some n
+
+theorem Extends.refl (reg : Reg) : Extends reg reg := ⟨id, fun _ _ h => h⟩
+
+theorem Extends.trans {a b c : Reg} (h1 : Extends a b) (h2 : Extends b c) : Extends a c :=
+  ⟨fun h => h2.1 (h1.1 h), fun u n h => h2.2 u n (h1.2 u n h)⟩
+
+theorem extends_setDef (reg : Reg) (name : String) (uid : Nat) (d : Option Obj) : Extends reg (setDef reg name uid d).2 :=
+  ⟨setDef_ok reg name uid d, fun u n h => setDef_stable reg name uid d u n h⟩
+
+theorem extends_ruleD (reg : Reg) (uid : Nat) (name : String) (data : Obj) : Extends reg (ruleD reg uid name data).2 := by
+  unfold ruleD
+  cases reg.nameOf uid with
+  | some n => exact Extends.refl reg
+  | none => exact extends_setDef reg name uid (some data)
+
+mutual
+theorem extends_genD (cfg : Cfg) : (t : Ty) → (reg : Reg) → Extends reg (genD cfg reg t).2
+  | .any, reg => by rw [genD.eq_def]; exact Extends.refl reg
+  | .plain _, reg => by rw [genD.eq_def]; exact Extends.refl reg
+  | .scalar p m cs, reg => by rw [genD.eq_def]; exact extends_ruleD _ _ _ _
+  | .derived p m cs0 site cs, reg => by
+    rw [genD.eq_def]
+    simp only
+    cases reg.nameOf site with
+    | some n => exact Extends.refl reg
+    | none => exact (extends_ruleD reg m.uid m.name _).trans (extends_setDef _ _ _ _)
+  | .seq p m cs item, reg => by rw [genD.eq_def]; exact extends_genD cfg item reg
+  | .tup m cs items, reg => by rw [genD.eq_def]; exact extends_genListD cfg items reg
+  | .map m cs key val, reg => by
+    rw [genD.eq_def]
+    exact (extends_genD cfg key reg).trans (extends_genD cfg val _)
+  | .enum _, reg => by rw [genD.eq_def]; exact Extends.refl reg
+  | .logic op ts, reg => by rw [genD.eq_def]; exact extends_genListD cfg ts reg
+  | .data c fields addTy, reg => by
+    rw [genD.eq_def]
+    simp only
+    cases reg.nameOf c.uid with
+    | some n => exact Extends.refl reg
+    | none =>
+      simp only
+      have h1 := extends_setDef reg (className cfg c (fields.map Fld.meta)) c.uid none
+      have h2 := extends_genFieldsD cfg (effOpts cfg c) fields (setDef reg (className cfg c (fields.map Fld.meta)) c.uid none).2
+      have h3 : Extends (genFieldsD cfg (effOpts cfg c) (setDef reg (className cfg c (fields.map Fld.meta)) c.uid none).2 fields).2
+          (if ((effOpts cfg c).addition == Addition.convert) = true then
+            (genD cfg (genFieldsD cfg (effOpts cfg c) (setDef reg (className cfg c (fields.map Fld.meta)) c.uid none).2 fields).2 addTy).2
+          else (genFieldsD cfg (effOpts cfg c) (setDef reg (className cfg c (fields.map Fld.meta)) c.uid none).2 fields).2) := by
+        split
+        · exact extends_genD cfg addTy _
+        · exact Extends.refl _
+      exact ((h1.trans h2).trans h3).trans (extends_setDef _ _ c.uid _)
+theorem extends_genListD (cfg : Cfg) : (ts : List Ty) → (reg : Reg) → Extends reg (genListD cfg reg ts).2
+  | [], reg => by rw [genListD.eq_def]; exact Extends.refl reg
+  | t :: rest, reg => by
+    rw [genListD.eq_def]
+    exact (extends_genD cfg t reg).trans (extends_genListD cfg rest _)
+theorem extends_genFieldsD (cfg : Cfg) (o : Opts) : (fs : List Fld) → (reg : Reg) → Extends reg (genFieldsD cfg o reg fs).2
+  | [], reg => by rw [genFieldsD.eq_def]; exact Extends.refl reg
+  | .mk m ty :: rest, reg => by
+    rw [genFieldsD.eq_def]
+    simp only
+    split
+    · exact (extends_genD cfg ty reg).trans (extends_genFieldsD cfg o rest _)
+    · exact extends_genFieldsD cfg o rest reg
+end
+
+/-- `genD` (the `$defs`-mode generator model), on any declaration and any registry: the registry stays well-formed
+(names and identities pairwise distinct) and no registered name is changed -/
+theorem C13_defs_genD_invariant (cfg : Cfg) (t : Ty) (reg : Reg) (hok : RegOk reg) :
+    RegOk (genD cfg reg t).2 ∧ ∀ u n, reg.nameOf u = some n → (genD cfg reg t).2.nameOf u = some n :=
+  ⟨(extends_genD cfg t reg).1 hok, (extends_genD cfg t reg).2⟩
+
+/-- `genD` on a data class that is not registered yet: the reference it returns names the (de-duplicated) definition
+under which the class is stored, and that definition is an object schema (the one just generated) -/
+theorem C13_defs_genD_class_resolves (cfg : Cfg) (c : ClassMeta) (fields : List Fld) (addTy : Ty) (reg : Reg)
+    (hok : RegOk reg) (hnone : reg.nameOf c.uid = none) (n : String)
+    (hf : freeName reg (className cfg c (fields.map Fld.meta)) = some n) :
+    (genD cfg reg (.data c fields addTy)).1 = refTo n ∧
+      (genD cfg reg (.data c fields addTy)).2.nameOf c.uid = some n ∧
+      ∃ data, lookup n (getDefs (genD cfg reg (.data c fields addTy)).2) = some (.obj data) ∧
+        lookup "type" data = some (.str "object") := by
+  have hres := setDef_fresh reg (className cfg c (fields.map Fld.meta)) c.uid none n hnone hf
+  rw [genD.eq_def]
+  simp only [hnone]
+  -- the registry between reservation and fill
+  generalize hmid : (if ((effOpts cfg c).addition == Addition.convert) = true then
+      (genD cfg (genFieldsD cfg (effOpts cfg c) (setDef reg (className cfg c (fields.map Fld.meta)) c.uid none).2 fields).2 addTy).2
+    else (genFieldsD cfg (effOpts cfg c) (setDef reg (className cfg c (fields.map Fld.meta)) c.uid none).2 fields).2) = regA
+  have hext : Extends (setDef reg (className cfg c (fields.map Fld.meta)) c.uid none).2 regA := by
+    rw [← hmid]
+    have h2 := extends_genFieldsD cfg (effOpts cfg c) fields (setDef reg (className cfg c (fields.map Fld.meta)) c.uid none).2
+    refine h2.trans ?_
+    split
+    · exact extends_genD cfg addTy _
+    · exact Extends.refl _
+  have hokA : RegOk regA := hext.1 (setDef_ok reg _ c.uid none hok)
+  have hA : regA.nameOf c.uid = some n := hext.2 c.uid n hres.2
+  generalize hdata : ([("type", Json.str "object"),
+      ("properties", Json.obj (genFieldsD cfg (effOpts cfg c) (setDef reg (className cfg c (fields.map Fld.meta)) c.uid none).2 fields).1)] ++
+      reqSeg cfg (effOpts cfg c) (fields.map Fld.meta) ++ depSeg cfg (effOpts cfg c) (fields.map Fld.meta) ++
+      addSeg (effOpts cfg c) (genD cfg (genFieldsD cfg (effOpts cfg c) (setDef reg (className cfg c (fields.map Fld.meta)) c.uid none).2 fields).2 addTy).1 ++
+      classAnnotations (effOpts cfg c) : Obj) = data
+  have hfin := setDef_registered regA (setDef reg (className cfg c (fields.map Fld.meta)) c.uid none).1 c.uid data n hA
+  rw [hres.1] at hfin ⊢
+  refine ⟨by rw [hfin.1], ?_, data, ?_, ?_⟩
+  · rw [hfin.2, nameOf_fill]; exact hA
+  · rw [hfin.2]; exact lookup_getDefs_fill regA c.uid data n hokA hA
+  · rw [← hdata]; simp [lookup_append, lookup]
+
 /-- the hypotheses are satisfiable with a name clash: a second class that asks for a taken name is stored and
 referred to under the de-duplicated one -/
 example : freeName [⟨1, "User_w", some []⟩] "User_w" = some "User_w_1" ∧ Reg.nameOf [⟨1, "User_w", some []⟩] 2 = none := by
   decide
+
+/-! ## non-vacuity with a regex oracle that discriminates, on mixed enums, narrowed rules, mappings, typed additions -/
+
+/-- an oracle that knows one expression, `[a-z]+` (and its anchored form), and a few strings: it holds of "ab", "cd",
+"k" and of nothing else -/
+def Rx.lower : Rx :=
+  ⟨fun p s => p == "[a-z]+" && ["ab", "cd", "k"].contains s,
+   fun p s => p == ".*" || (p == anchor "[a-z]+" && ["ab", "cd", "k"].contains s)⟩
+
+theorem Rx.lower_laws : RxLaws Rx.lower := by
+  refine ⟨fun p s h => ?_⟩
+  simp only [Rx.lower, Bool.and_eq_true, beq_iff_eq] at h ⊢
+  obtain ⟨hp, h1⟩ := h
+  subst hp
+  simp only [Bool.or_eq_true, Bool.and_eq_true, beq_iff_eq]
+  exact Or.inr ⟨trivial, h1⟩
+
+def Ctx.lower : Ctx := ⟨Rx.lower.search, fun _ _ => false⟩
+
+def mixedEnum : Ty := .enum ⟨none, [.int, .str], [("A", .num ⟨1, 0⟩), ("B", .str "a")]⟩
+def posInt : RuleMeta := { primitive := none, format := none, name := "Pos", uid := 1 }
+
+def richClass : Ty :=
+  .data { name := "Rich", opts := { mode := none, addition := .convert, ignoreRequired := false, noDefault := false,
+                                     deferDefault := false } }
+    [.mk { witnessField with name := "e", attname := "e", mode := none } mixedEnum,
+     .mk { witnessField with name := "d", attname := "d", mode := none, required := .never, deps := ["e"] }
+        (.derived .int posInt [("gt", .num ⟨0, 0⟩)] 7 [("le", .num ⟨5, 0⟩)]),
+     .mk { witnessField with name := "m", attname := "m", mode := none, required := .never }
+        (.map { primitive := none, format := none } [("max_length", .num ⟨2, 0⟩)] (.plain .str)
+          (.scalar .str { primitive := none, format := none } [("regex", .str "[a-z]+")]))]
+    (.seq .list { primitive := none, format := none } [] (.plain .int))
+
+def richValue : PV :=
+  .inst [("e", .enumv (.int 1)), ("d", .int 3), ("m", .dict [(.name "k", .str "ab")]), ("zz", .list [.int 5])]
+
+/-- all hypotheses of `C13_outputs_validate_partial` hold of a class with a mixed enum, a narrowed named rule, a
+constrained mapping with a `regex` value type, a dependency and a typed addition — under an oracle that does reject -/
+example : wfTy richClass = true ∧ conforms Rx.lower richClass richValue = true ∧
+    KnownDefect.unsafeDecimal richValue = false ∧
+    KnownDefect.oneOfOverlap Ctx.lower ⟨true, none⟩ richClass richValue = false ∧
+    validate Ctx.lower (generate ⟨true, none⟩ richClass) (encode richValue) = true := by decide
+
+/-- … and each ingredient bites: a non-member enum value, a value beyond the narrowing bound, an upper-case mapping
+value and an addition of the wrong type are all refused by the contract and by the document -/
+example :
+    (conforms Rx.lower richClass (.inst [("e", .enumv (.int 2))]) = false ∧
+      validate Ctx.lower (generate ⟨true, none⟩ richClass) (encode (.inst [("e", .enumv (.int 2))])) = false) ∧
+    (conforms Rx.lower richClass (.inst [("e", .enumv (.str "a")), ("d", .int 6)]) = false ∧
+      validate Ctx.lower (generate ⟨true, none⟩ richClass) (encode (.inst [("e", .enumv (.str "a")), ("d", .int 6)])) = false) ∧
+    (conforms Rx.lower richClass (.inst [("e", .enumv (.int 1)), ("m", .dict [(.name "k", .str "AB")])]) = false ∧
+      validate Ctx.lower (generate ⟨true, none⟩ richClass)
+        (encode (.inst [("e", .enumv (.int 1)), ("m", .dict [(.name "k", .str "AB")])])) = false) ∧
+    (conforms Rx.lower richClass (.inst [("e", .enumv (.int 1)), ("zz", .str "x")]) = false ∧
+      validate Ctx.lower (generate ⟨true, none⟩ richClass) (encode (.inst [("e", .enumv (.int 1)), ("zz", .str "x")])) = false) := by
+  decide
+
+/-- the input document of the same class carries the dependency (input view only), anchored patterns and the
+addition type's schema -/
+example :
+    (lookup "dependentRequired" (gen ⟨false, none⟩ richClass)).map (Json.eqv (.obj [("d", .arr [.str "e"])])) = some true ∧
+    (lookup "dependentRequired" (gen ⟨true, none⟩ richClass)).isNone = true ∧
+    (additionalOf (generate ⟨false, none⟩ richClass)).map
+      (Json.eqv (.obj [("type", .str "array"), ("items", .obj [("type", .str "integer")])])) = some true := by
+  decide +kernel
 
 /-! ## glue the generator and the published values depend on -/
 
